@@ -13,7 +13,29 @@ pub const ALL: &[&str] = &[
     "worker_error_and_diff",
     "walker_error_while_workers_busy",
     "abort_while_workers_busy",
+    "status_error_then_diff",
+    "status_diff_then_error",
 ];
+
+/// Probes that say something about the given property (the others are reported too, but a zero
+/// there is not a blind spot).
+pub fn relevant(property: &str) -> &'static [&'static str] {
+    match property {
+        "C13" => &["worker_error_and_diff", "walker_error_while_workers_busy", "status_error_then_diff", "status_diff_then_error"],
+        "C14" => &["panic_respawn", "abort_while_workers_busy", "walker_error_while_workers_busy"],
+        "C17" => &["retry_paths"],
+        "C19" => &[
+            "worker_error_and_diff",
+            "walker_error_while_workers_busy",
+            "panic_respawn",
+            "abort_while_workers_busy",
+            "status_error_then_diff",
+            "status_diff_then_error",
+        ],
+        "C20" => &["abort_while_workers_busy"],
+        _ => &[],
+    }
+}
 
 fn atomic_of(label: &str) -> Option<(&str, &str)> {
     // "atomic.i32#4.store 2" -> ("atomic.i32#4", "store 2")
@@ -52,6 +74,36 @@ pub fn probes(run: &RunResult) -> BTreeMap<&'static str, u64> {
                     }
                 }
                 value.insert(cell.to_string(), v);
+            }
+        }
+    }
+    // both orders of "an error sets the status cell to 2" and "a diff raises it to 1" by
+    // different tasks
+    {
+        let mut first_two: BTreeMap<String, (usize, usize)> = BTreeMap::new(); // cell -> (index, tid) of first value-2 write
+        let mut first_one: BTreeMap<String, (usize, usize)> = BTreeMap::new();
+        for (i, e) in t.events.iter().enumerate() {
+            if let Some((cell, op)) = atomic_of(&e.label) {
+                if !cell.starts_with("atomic.i32") || op.starts_with("load") {
+                    continue;
+                }
+                let val: i64 = op.split_whitespace().last().and_then(|s| s.parse().ok()).unwrap_or(-1);
+                if val == 2 {
+                    first_two.entry(cell.to_string()).or_insert((i, e.tid));
+                } else if val == 1 {
+                    first_one.entry(cell.to_string()).or_insert((i, e.tid));
+                }
+            }
+        }
+        for (cell, (i2, t2)) in &first_two {
+            if let Some((i1, t1)) = first_one.get(cell) {
+                if t1 != t2 {
+                    if i2 < i1 {
+                        out.insert("status_error_then_diff", 1);
+                    } else {
+                        out.insert("status_diff_then_error", 1);
+                    }
+                }
             }
         }
     }
